@@ -33,7 +33,7 @@ def run(tier, seed, rep):
     rng = random.Random(seed * 533000389 + 47)
     with ThreadPoolExecutor(max_workers=1) as ex:
         mc = ex.submit(model, tier)
-        cands = [MG.isas_special(k + 1, k) for k in range(12)]
+        cands = [MG.isas_special(k + 1, k) for k in range(14)]
         cands += [MG.isas_def(rng, len(cands) + k + 1) for k in range(sz["sample"])]
         facts = pipe.domain_pass(cands, PROP)
         defs = [E for E in cands if facts[E["id"]]["iswfn"]]
